@@ -23,6 +23,8 @@ from sqlalchemy.sql.elements import quoted_name
 
 from alembic.operations import ops
 
+from . import render_usertypes as _usertypes
+
 ALL_DIALECTS = ["sqlite", "postgresql", "mysql", "mssql", "oracle"]
 RENDER_DIALECTS = ALL_DIALECTS + ["default"]
 
@@ -155,8 +157,11 @@ def _gen_type(rng, names, used_cnames, allow_dialect_types=True, family=None):
             del ts["args"]["collation"]
     elif r < 0.89:
         ts = {"t": rng.choice(["Unicode", "CHAR", "NVARCHAR"]), "args": {"length": 20}}
-    elif r < 0.92:
+    elif r < 0.91:
         ts = {"t": rng.choice(["Uuid", "Interval", "TIMESTAMP", "BIGINT", "REAL", "Double"]), "args": {}}
+    elif r < 0.925:
+        # a type from a module that is not sqlalchemy.*: rendered with the module name / user_module_prefix
+        ts = rng.choice([{"t": "user.Epoch", "args": {"scale": 1000}}, {"t": "user.Point", "args": {"srid": 4326}}, {"t": "user.Epoch", "args": {}}])
     elif r < 0.95:
         base = {"t": "String", "args": {"length": 10}}
         var = rng.choice(
@@ -168,13 +173,23 @@ def _gen_type(rng, names, used_cnames, allow_dialect_types=True, family=None):
         )
         ts = {"t": "Variant", "args": {"base": base, "variants": [var]}}
     elif allow_dialect_types:
-        which = rng.choice([w for w in ["pg_jsonb", "pg_array", "pg_uuid", "pg_hstore", "my_tinyint", "my_varchar", "my_enum"] if family is None or w.startswith({"postgresql": "pg_", "mysql": "my_"}[family])])
+        which = rng.choice([w for w in ["pg_jsonb", "pg_array", "pg_uuid", "pg_hstore", "pg_array2", "pg_json", "pg_hstore2", "pg_arrayvar", "my_tinyint", "my_varchar", "my_enum"] if family is None or w.startswith({"postgresql": "pg_", "mysql": "my_"}[family])])
         if which == "pg_jsonb":
             ts, restrict = {"t": "postgresql.JSONB", "args": {}}, ["postgresql"]
         elif which == "pg_array":
             ts, restrict = {"t": "ARRAY", "args": {"item": {"t": "Integer", "args": {}}}}, ["postgresql"]
         elif which == "pg_hstore":
             ts, restrict = {"t": "postgresql.HSTORE", "args": {}}, ["postgresql"]
+        elif which == "pg_array2":
+            # postgresql.ARRAY: PostgresqlImpl._render_ARRAY_type
+            ts, restrict = {"t": "postgresql.ARRAY", "args": {"item": rng.choice([{"t": "Integer", "args": {}}, {"t": "String", "args": {"length": 20}}, {"t": "postgresql.UUID", "args": {}}])}}, ["postgresql"]
+        elif which == "pg_arrayvar":
+            ts, restrict = {"t": "postgresql.ARRAY", "args": {"item": {"t": "user.Epoch", "args": {"scale": 2}}, "dimensions": 2}}, ["postgresql"]
+        elif which == "pg_json":
+            # astext_type: PostgresqlImpl._render_JSON_type
+            ts, restrict = {"t": rng.choice(["postgresql.JSON", "postgresql.JSONB"]), "args": {"astext": {"t": "Text", "args": {}} if rng.random() < 0.5 else {"t": "String", "args": {"length": 50}}}}, ["postgresql"]
+        elif which == "pg_hstore2":
+            ts, restrict = {"t": "postgresql.HSTORE", "args": {"text": {"t": "String", "args": {"length": 50}}}}, ["postgresql"]
         elif which == "pg_uuid":
             ts, restrict = {"t": "postgresql.UUID", "args": {}}, ["postgresql"]
         elif which == "my_tinyint":
@@ -198,6 +213,15 @@ def build_type(ts):
         return base
     if t == "ARRAY":
         return sa.ARRAY(build_type(a["item"]))
+    if t == "postgresql.ARRAY":
+        item = build_type(a.pop("item"))
+        return _postgresql.ARRAY(item, **a)
+    if t.startswith("user."):
+        return getattr(_usertypes, t.split(".", 1)[1])(**a)
+    if "astext" in a:
+        a["astext_type"] = build_type(a.pop("astext"))
+    if "text" in a and t == "postgresql.HSTORE":
+        a["text_type"] = build_type(a.pop("text"))
     if t.startswith("postgresql."):
         cls = getattr(_postgresql, t.split(".", 1)[1])
     elif t.startswith("mysql."):
@@ -301,10 +325,12 @@ def _gen_column(rng, names, used, used_cnames, first=False, allow_dialect_types=
             col["autoincrement"] = "auto"
     if rng.random() < 0.25:
         col["comment"] = names.string("column_comment")
-    # Column(index=True/unique=True): autogenerate emits the index / constraint as a separate op and
-    # invoking AddColumnOp emits it as well, so the flag is not part of what rendering has to reproduce
-    if rng.random() < 0.0:
+    # Column(index=True/unique=True): _render_column never renders the flag while invoking AddColumnOp /
+    # CreateTableOp creates the index / constraint (finding C08-N12)
+    if rng.random() < 0.03:
         col[rng.choice(["index", "unique"])] = True
+    if not col["primary_key"] and rng.random() < 0.03:
+        col["system"] = True
     return col, restrict
 
 
@@ -451,6 +477,7 @@ def _cname(rng, names, used, nc, allow_none=True, ix=False):
     return names.ident("index_name" if ix else "constraint_name", used)
 
 
+EXTRA_MODIFY_KINDS = ["drop_check", "drop_pk", "drop_untyped", "empty_modify"]
 MODIFY_KINDS = [
     "add_column", "drop_column", "alter_column", "create_index", "drop_index", "create_unique",
     "drop_unique", "create_fk", "drop_fk", "create_table_comment", "drop_table_comment",
@@ -466,6 +493,17 @@ def gen_spec(rng, thorough=False):
         "naming_convention": nc,
         "render_dialect": rng.choice(RENDER_DIALECTS),
     }
+    x = rng.random()
+    if x < 0.12:
+        # a render_item hook (returns False, or alembic's own rendering for some item kinds)
+        opts["render_item"] = rng.choice(["false", "mirror-types", "mirror-column", "mirror-constraints"])
+    if rng.random() < 0.08:
+        opts["user_module_prefix"] = "ut."
+    if nc and rng.random() < 0.5:
+        # env.py style: the migration context knows target_metadata (and its naming convention)
+        opts["target_metadata"] = True
+    if rng.random() < 0.08:
+        opts["metadata_schema"] = rng.choice(["ms", "Meta Schema"])
     used_tables = set()
     used_cnames = set()
     tables = []
@@ -500,7 +538,32 @@ def gen_spec(rng, thorough=False):
                 "use_alter": rng.random() < 0.05,
                 "match": rng.choice([None, None, None, None, "FULL"]),
             }
+            if rng.random() < 0.1:
+                fk["link_to_name"] = True
+            elif rng.random() < 0.05:
+                # target table unknown to the MetaData (only usable inside create_table / drop_table)
+                fk["ghost"] = rng.choice(["ghost_tbl.id", "other_schema.ghost_tbl.id"])
+                fk["cols"] = fk["cols"][:1]
+                fk["refcols"] = fk["refcols"][:1]
             t["fks"].append(fk)
+    # PostgreSQL EXCLUDE constraints (inline in create_table, and as op.create_exclude_constraint)
+    if family == "postgresql":
+        for t in tables:
+            if rng.random() < 0.12:
+                cn = [c["name"] for c in t["columns"]]
+                ex = {"name": _cname(rng, names, used_cnames, nc, allow_none=False),
+                      "elems": [[rng.choice(cn), rng.choice(["=", "&&"])]] + ([[{"text": "lower(name)"}, "="]] if rng.random() < 0.3 else [])
+                      + ([[{"litcol": "int8range(lo, hi)"}, "&&"]] if rng.random() < 0.3 else []),
+                      "where": rng.choice([None, None, "qty > 5", "name <> 'it''s'"]),
+                      "using": rng.choice(["gist", "gist", "btree"]),
+                      "deferrable": rng.choice([None, None, True, False]), "initially": rng.choice([None, None, "DEFERRED"])}
+                t["excludes"] = [ex]
+                restricts.append(["postgresql"])
+    # a different attribute key on some columns (Column(key=...)): rendering has to use the name
+    for t in tables:
+        for ci, c in enumerate(t["columns"]):
+            if rng.random() < 0.06:
+                c["key"] = "k%d_%s" % (ci, rng.choice(["x", "attr"]))
     # operations
     oplist = []
     nops = rng.choice([1, 1, 2, 3] if not thorough else [1, 2, 3, 4, 5])
@@ -509,13 +572,25 @@ def gen_spec(rng, thorough=False):
         t = tables[ti]
         if rng.random() < 0.3:
             kind = rng.choice(TOP_KINDS + ["create_table"])
-            oplist.append({"kind": kind, "table": ti})
+            o = {"kind": kind, "table": ti}
+            if rng.random() < 0.15:
+                o["if_not_exists" if kind == "create_table" else "if_exists"] = rng.choice([True, False])
+            oplist.append(o)
             if kind == "create_table" and t["indexes"] and rng.random() < 0.5:
                 for ii in range(len(t["indexes"])):
                     oplist.append({"kind": "create_index", "table": ti, "index": ii})
             continue
-        kind = rng.choice(MODIFY_KINDS)
+        if rng.random() < 0.04:
+            oplist.append({"kind": "execute", "table": ti, "sqltext": rng.choice(
+                ["SELECT 1", "UPDATE t SET x = 'it''s'", "INSERT INTO t VALUES ('a\\b', '50%')", "SELECT \"q\" -- c\nFROM t"])})
+            continue
+        kind = rng.choice(MODIFY_KINDS) if rng.random() < 0.9 else rng.choice(EXTRA_MODIFY_KINDS)
+        if t.get("excludes") and rng.random() < 0.4 and not any(x["kind"] == "create_exclude" and x["table"] == ti for x in oplist):
+            # (one op object per constraint: SQLAlchemy's AddConstraint marks the constraint, a second invoke of the same object emits nothing)
+            kind = "create_exclude"
         o = {"kind": kind, "table": ti}
+        if kind in ("create_index", "drop_index") and rng.random() < 0.15:
+            o["if_not_exists" if kind == "create_index" else "if_exists"] = rng.choice([True, False])
         if kind in ("add_column", "drop_column"):
             o["column"] = rng.randrange(len(t["columns"]))
             if kind == "add_column":
@@ -546,6 +621,9 @@ def gen_spec(rng, thorough=False):
                 o["modify_server_default"] = rng.choice([None, _gen_server_default(rng, names, allow_special=False)])
             if "comment" in changes:
                 o["modify_comment"] = rng.choice([None, names.string("column_comment")])
+            if rng.random() < 0.12:
+                # a rename (autogenerate never detects one, but the op and its renderer support it)
+                o["modify_name"] = names.ident("column", set())
         elif kind in ("create_index", "drop_index"):
             if not t["indexes"]:
                 continue
@@ -555,9 +633,19 @@ def gen_spec(rng, thorough=False):
                 continue
             o["constraint"] = rng.randrange(len(t["uniques"]))
         elif kind in ("create_fk", "drop_fk"):
-            if not t["fks"]:
+            cand = [i for i, f in enumerate(t["fks"]) if not f.get("ghost")]
+            if not cand:
                 continue
-            o["constraint"] = rng.randrange(len(t["fks"]))
+            o["constraint"] = rng.choice(cand)
+        elif kind == "drop_check":
+            if not t["checks"]:
+                continue
+            o["constraint"] = rng.randrange(len(t["checks"]))
+        elif kind == "drop_pk":
+            if not any(c["primary_key"] for c in t["columns"]):
+                continue
+        elif kind == "drop_untyped":
+            o["name"] = names.ident("constraint", set())
         elif kind == "create_table_comment":
             o["comment"] = names.string("table_comment")
             o["existing_comment"] = rng.choice([None, t["comment"]])
@@ -625,6 +713,10 @@ def _build_column(c):
         kw["index"] = True
     if c.get("unique"):
         kw["unique"] = True
+    if c.get("system"):
+        kw["system"] = True
+    if c.get("key"):
+        kw["key"] = c["key"]
     args = []
     sd = c.get("server_default")
     if sd:
@@ -635,25 +727,33 @@ def _build_column(c):
     return sa.Column(c["name"], build_type(c["type"]), *args, **kw)
 
 
+def _col(t, name):
+    """column by *name* (a column may carry a different .key)"""
+    for c in t.columns:
+        if c.name == name:
+            return c
+    raise KeyError(name)
+
+
 def _index_elem(t, e):
     if "col" in e:
-        return t.c[e["col"]]
+        return _col(t, e["col"])
     if "text" in e:
         return sa.text(e["text"])
     if "func" in e:
-        x = getattr(sa.func, e["func"][0])(t.c[e["func"][1]])
+        x = getattr(sa.func, e["func"][0])(_col(t, e["func"][1]))
         return x.label(e["label"]) if e.get("label") else x
     if "desc" in e:
-        return t.c[e["desc"]].desc()
+        return _col(t, e["desc"]).desc()
     if "litcol" in e:
         x = sa.literal_column(e["litcol"])
         return x.label(e["label"]) if e.get("label") else x
     if "lwcol" in e:
         return sa.column(e["lwcol"])
     if "cast" in e:
-        return sa.cast(t.c[e["cast"]], sa.String(30))
+        return sa.cast(_col(t, e["cast"]), sa.String(30))
     if "collate" in e:
-        return t.c[e["collate"]].collate("C")
+        return _col(t, e["collate"]).collate("C")
     raise ValueError(e)
 
 
@@ -665,7 +765,12 @@ def _kwval(v):
 
 def build(spec):
     opts = spec["opts"]
-    md = sa.MetaData(naming_convention=NAMING_CONVENTION) if opts.get("naming_convention") else sa.MetaData()
+    mkw = {}
+    if opts.get("naming_convention"):
+        mkw["naming_convention"] = NAMING_CONVENTION
+    if opts.get("metadata_schema"):
+        mkw["schema"] = opts["metadata_schema"]
+    md = sa.MetaData(**mkw)
     tables = []
     for ts in spec["tables"]:
         name = quoted_name(ts["name"], quote=True) if ts.get("quote_name") else ts["name"]
@@ -683,7 +788,7 @@ def build(spec):
         if ts.get("pk_name") is not None and len(t.primary_key.columns):
             t.primary_key.name = _name_obj(ts["pk_name"])
         tables.append(t)
-    uniques, fks, indexes = [], [], []
+    uniques, fks, indexes, checks = [], [], [], []
     for ts, t in zip(spec["tables"], tables):
         us = []
         for u in ts.get("uniques", []):
@@ -692,31 +797,66 @@ def build(spec):
                 kw["deferrable"] = u["deferrable"]
             if u.get("initially") is not None:
                 kw["initially"] = u["initially"]
-            c = sa.UniqueConstraint(*[t.c[n] for n in u["cols"]], name=_name_obj(u["name"]), **kw)
+            c = sa.UniqueConstraint(*[_col(t, n) for n in u["cols"]], name=_name_obj(u["name"]), **kw)
             t.append_constraint(c)
             us.append(c)
         uniques.append(us)
+        cl = []
         for ck in ts.get("checks", []):
-            t.append_constraint(sa.CheckConstraint(sa.text(ck["sqltext"]), name=_name_obj(ck["name"])))
+            c = sa.CheckConstraint(sa.text(ck["sqltext"]), name=_name_obj(ck["name"]))
+            t.append_constraint(c)
+            cl.append(c)
+        checks.append(cl)
     for ts, t in zip(spec["tables"], tables):
         fl = []
         for fk in ts.get("fks", []):
-            rt = fk["reftable"]
-            if not isinstance(rt, int):
-                rt = [x["name"] for x in spec["tables"]].index(rt)
-            rtab = tables[rt]
             kw = {}
+            if fk.get("ghost"):
+                # the referred table is not in the MetaData: render._fk_colspec must not fail
+                refcols = [fk["ghost"]]
+            else:
+                rt = fk["reftable"]
+                if not isinstance(rt, int):
+                    rt = [x["name"] for x in spec["tables"]].index(rt)
+                rtab = tables[rt]
+                refcols = [_col(rtab, n) for n in fk["refcols"]]
+            if fk.get("link_to_name") and not fk.get("ghost"):
+                # link_to_name is only meaningful for string specs "table.column_name"
+                kw["link_to_name"] = True
+                refcols = ["%s.%s" % (rtab.key, n) for n in fk["refcols"]]
             for k in ("ondelete", "onupdate", "deferrable", "initially", "match"):
                 if fk.get(k) is not None:
                     kw[k] = fk[k]
             if fk.get("use_alter"):
                 kw["use_alter"] = True
             c = sa.ForeignKeyConstraint(
-                [t.c[n] for n in fk["cols"]], [rtab.c[n] for n in fk["refcols"]], name=_name_obj(fk["name"]), **kw
+                [_col(t, n) for n in fk["cols"]], refcols, name=_name_obj(fk["name"]), **kw
             )
             t.append_constraint(c)
             fl.append(c)
         fks.append(fl)
+    excludes = []
+    for ts, t in zip(spec["tables"], tables):
+        el = []
+        for ex in ts.get("excludes", []):
+            from alembic.ddl import postgresql as _am_pg  # noqa: F401  (registers the exclude constraint op / renderers)
+
+            kw = {"name": _name_obj(ex["name"]), "using": ex.get("using", "gist")}
+            if ex.get("where"):
+                kw["where"] = sa.text(ex["where"])
+            for k in ("deferrable", "initially"):
+                if ex.get(k) is not None:
+                    kw[k] = ex[k]
+            def _exel(x):
+                if isinstance(x, dict):
+                    return sa.literal_column(x["litcol"]) if "litcol" in x else sa.text(x["text"])
+                return _col(t, x)
+
+            elems = [(_exel(e[0]), e[1]) for e in ex["elems"]]
+            c = _postgresql.ExcludeConstraint(*elems, **kw)
+            t.append_constraint(c)
+            el.append(c)
+        excludes.append(el)
     for ts, t in zip(spec["tables"], tables):
         il = []
         for ix in ts.get("indexes", []):
@@ -746,14 +886,32 @@ def build(spec):
         ts = spec["tables"][ti]
         if k == "create_table":
             flush()
-            out.append(ops.CreateTableOp.from_table(t))
+            top = ops.CreateTableOp.from_table(t)
+            if o.get("if_not_exists") is not None:
+                top.if_not_exists = o["if_not_exists"]
+            out.append(top)
             kinds.append(k)
             ospecs.append([o])
             continue
         if k == "drop_table":
             flush()
-            out.append(ops.DropTableOp.from_table(t))
+            top = ops.DropTableOp.from_table(t)
+            if o.get("if_exists") is not None:
+                top.if_exists = o["if_exists"]
+            out.append(top)
             kinds.append(k)
+            ospecs.append([o])
+            continue
+        if k == "execute":
+            flush()
+            out.append(ops.ExecuteSQLOp(o["sqltext"]))
+            kinds.append(k)
+            ospecs.append([o])
+            continue
+        if k == "empty_modify":
+            flush()
+            out.append(ops.ModifyTableOps(t.name, [], schema=t.schema))
+            kinds.append("modify:")
             ospecs.append([o])
             continue
         if cur is None or cur[0] != ti:
@@ -761,13 +919,13 @@ def build(spec):
             cur = (ti, ops.ModifyTableOps(t.name, [], schema=t.schema), [], [])
         tname, schema = t.name, t.schema
         if k == "add_column":
-            col = t.c[ts["columns"][o["column"]]["name"]]
+            col = _col(t, ts["columns"][o["column"]]["name"])
             if o.get("via") == "from_column":
                 inner = ops.AddColumnOp.from_column(col)
             else:
                 inner = ops.AddColumnOp.from_column_and_tablename(schema, tname, col)
         elif k == "drop_column":
-            col = t.c[ts["columns"][o["column"]]["name"]]
+            col = _col(t, ts["columns"][o["column"]]["name"])
             inner = ops.DropColumnOp.from_column_and_tablename(schema, tname, col)
         elif k == "alter_column":
             cs = ts["columns"][o["column"]]
@@ -790,10 +948,24 @@ def build(spec):
             inner.existing_comment = o.get("existing_comment")
             if o.get("modify_comment", False) is not False:
                 inner.modify_comment = o["modify_comment"]
+            if o.get("modify_name") is not None:
+                inner.modify_name = o["modify_name"]
         elif k == "create_index":
             inner = ops.CreateIndexOp.from_index(indexes[ti][o["index"]])
+            if o.get("if_not_exists") is not None:
+                inner.if_not_exists = o["if_not_exists"]
         elif k == "drop_index":
             inner = ops.DropIndexOp.from_index(indexes[ti][o["index"]])
+            if o.get("if_exists") is not None:
+                inner.if_exists = o["if_exists"]
+        elif k == "create_exclude":
+            inner = ops.AddConstraintOp.from_constraint(excludes[ti][0])
+        elif k == "drop_check":
+            inner = ops.DropConstraintOp.from_constraint(checks[ti][o["constraint"]])
+        elif k == "drop_pk":
+            inner = ops.DropConstraintOp.from_constraint(t.primary_key)
+        elif k == "drop_untyped":
+            inner = ops.DropConstraintOp(o["name"], tname, type_=None, schema=schema)
         elif k == "create_unique":
             inner = ops.AddConstraintOp.from_constraint(uniques[ti][o["constraint"]])
         elif k == "drop_unique":
@@ -1053,6 +1225,111 @@ def shrink_candidates(spec):
             if not _is_plain(c["name"]):
                 k += 1
                 yield _rename_scoped(spec, ti, c["name"], "zc%d" % k)
+
+
+def battery():
+    """a small fixed battery of specs for branches random generation reaches rarely or never;
+    every entry is crossed with batch on/off by the caller"""
+    def col(name, t="Integer", **kw):
+        c = {"name": name, "type": {"t": t, "args": kw.pop("targs", {})}, "nullable": None, "primary_key": False,
+             "server_default": None, "comment": None, "autoincrement": "auto"}
+        c.update(kw)
+        return c
+
+    def table(name, cols, **kw):
+        t = {"name": name, "schema": None, "comment": None, "quote_name": None, "columns": cols, "uniques": [], "checks": [],
+             "pk_name": None, "fks": [], "indexes": [], "kw": {}, "prefixes": [], "info": {}}
+        t.update(kw)
+        return t
+
+    def spec(tables, ops_, **opts):
+        o = {"render_as_batch": False, "naming_convention": False, "render_dialect": "default"}
+        o.update(opts)
+        return {"v": 1, "opts": o, "dialects": opts.pop("dialects", None) if False else None, "tables": tables, "ops": ops_, "name_classes": []}
+
+    out = []
+    # more than 255 arguments: _add_table switches to `*[...]` (MAX_PYTHON_ARGS)
+    big = table("wide", [col("c%03d" % i, primary_key=(i == 0)) for i in range(257)])
+    out.append(("wide-table", spec([big], [{"kind": "create_table", "table": 0}])))
+    # exactly at the limit: 254 columns + PK constraint = 255 arguments (no star form)
+    lim = table("limit", [col("c%03d" % i, primary_key=(i == 0)) for i in range(254)])
+    out.append(("limit-table", spec([lim], [{"kind": "create_table", "table": 0}])))
+    # every if_exists / if_not_exists value on every op that takes one
+    t = table("it's", [col("id", primary_key=True), col("na me", "String", targs={"length": 30})], schema="s'x",
+              indexes=[{"name": "ix it's", "elems": [{"col": "na me"}], "unique": False, "kw": {}}])
+    for v in (True, False):
+        out.append(("if-flags-%s" % v, spec([t], [
+            {"kind": "create_table", "table": 0, "if_not_exists": v},
+            {"kind": "create_index", "table": 0, "index": 0, "if_not_exists": v},
+            {"kind": "drop_index", "table": 0, "index": 0, "if_exists": v},
+            {"kind": "drop_table", "table": 0, "if_exists": v}])))
+    # rename + every other alter_column option at once
+    out.append(("alter-rename", spec([t], [{
+        "kind": "alter_column", "table": 0, "column": 1, "existing_type": {"t": "String", "args": {"length": 30}},
+        "existing_nullable": True, "existing_server_default": {"kind": "text", "value": "'x'"}, "existing_comment": "old",
+        "modify_type": None, "modify_nullable": None, "modify_server_default": False, "modify_comment": False,
+        "autoincrement": None, "modify_name": "new 'name'"}])))
+    # constraint drops of every kind, typed and untyped; execute; empty container
+    t2 = table("acct", [col("id", primary_key=True), col("qty")], pk_name="pk it's",
+               checks=[{"name": "ck\\pos", "sqltext": "qty > 0", "col": "qty"}])
+    out.append(("drops", spec([t2], [
+        {"kind": "drop_check", "table": 0, "constraint": 0}, {"kind": "drop_pk", "table": 0},
+        {"kind": "drop_untyped", "table": 0, "name": "some \"name\""}, {"kind": "empty_modify", "table": 0},
+        {"kind": "execute", "table": 0, "sqltext": "UPDATE acct SET qty = 0 WHERE id = 'it''s' -- 50%"}])))
+    # MetaData(schema=...) with a foreign key to a schema-less table, to a ghost table and by link_to_name; Column(key=...)
+    a = table("parent", [col("id", primary_key=True), col("code", key="code_attr")])
+    b = table("child", [col("id", primary_key=True), col("pid"), col("pcode"), col("gid")], fks=[
+        {"name": None, "cols": ["pid"], "reftable": 0, "refcols": ["id"], "ondelete": None, "onupdate": None, "deferrable": None,
+         "initially": None, "use_alter": False, "match": None},
+        {"name": "fk_code", "cols": ["pcode"], "reftable": 0, "refcols": ["code"], "ondelete": None, "onupdate": None, "deferrable": None,
+         "initially": None, "use_alter": False, "match": None},
+        {"name": "fk_ltn", "cols": ["pid"], "reftable": 0, "refcols": ["id"], "ondelete": None, "onupdate": None, "deferrable": None,
+         "initially": None, "use_alter": False, "match": None, "link_to_name": True},
+        {"name": "fk_ghost", "cols": ["gid"], "reftable": 0, "refcols": ["id"], "ondelete": None, "onupdate": None, "deferrable": None,
+         "initially": None, "use_alter": False, "match": None, "ghost": "ghost_tbl.id"}])
+    for ms in (None, "ms"):
+        for nc in (False, True):
+            o = {"naming_convention": nc}
+            if ms:
+                o["metadata_schema"] = ms
+            if nc:
+                o["target_metadata"] = True
+            out.append(("fk-colspec-%s-%s" % (ms, nc), spec([a, b], [
+                {"kind": "create_table", "table": 0}, {"kind": "create_table", "table": 1},
+                {"kind": "create_fk", "table": 1, "constraint": 1}, {"kind": "drop_fk", "table": 1, "constraint": 1}], **o)))
+    # render_item hooks and user defined types
+    u = table("geo", [col("id", primary_key=True), col("at", "user.Epoch", targs={"scale": 1000}, server_default={"kind": "text", "value": "0"}),
+                      col("pt", "user.Point", targs={"srid": 4326}), col("sys", system=True)],
+              uniques=[{"name": "uq_at", "cols": ["at"], "deferrable": None, "initially": None}],
+              checks=[{"name": "ck_at", "sqltext": "at >= 0", "col": "at"}])
+    for ri in (None, "false", "mirror-types", "mirror-column", "mirror-constraints"):
+        for ump in (None, "ut."):
+            o = {}
+            if ri:
+                o["render_item"] = ri
+            if ump:
+                o["user_module_prefix"] = ump
+            out.append(("hooks-%s-%s" % (ri, ump), spec([u], [
+                {"kind": "create_table", "table": 0}, {"kind": "add_column", "table": 0, "column": 1, "via": "from_column"},
+                {"kind": "alter_column", "table": 0, "column": 2, "existing_type": {"t": "user.Point", "args": {"srid": 4326}},
+                 "existing_nullable": None, "existing_server_default": False, "existing_comment": None,
+                 "modify_type": {"t": "user.Epoch", "args": {}}, "modify_nullable": None, "modify_server_default": False,
+                 "modify_comment": False, "autoincrement": None}], **o)))
+    # PostgreSQL only: types with and without a dedicated renderer, inline and ALTER exclude constraints
+    pg = table("evt", [col("id", primary_key=True), col("uid", "postgresql.UUID"), col("ip", "postgresql.INET"),
+                       col("tags", "postgresql.ARRAY", targs={"item": {"t": "String", "args": {"length": 20}}}),
+                       col("ep", "postgresql.ARRAY", targs={"item": {"t": "user.Epoch", "args": {"scale": 2}}, "dimensions": 2}),
+                       col("doc", "postgresql.JSON", targs={"astext": {"t": "Text", "args": {}}}),
+                       col("kv", "postgresql.HSTORE", targs={"text": {"t": "String", "args": {"length": 50}}}),
+                       col("lo"), col("hi")],
+               excludes=[{"name": "ex it's", "elems": [["id", "="], [{"litcol": "int8range(lo, hi)"}, "&&"]], "where": "lo < hi",
+                          "using": "gist", "deferrable": True, "initially": "DEFERRED"}])
+    for ri in (None, "mirror-constraints", "mirror-types"):
+        sp = spec([pg], [{"kind": "create_table", "table": 0}, {"kind": "create_exclude", "table": 0},
+                         {"kind": "add_column", "table": 0, "column": 3, "via": "from_column"}], **({"render_item": ri} if ri else {}))
+        sp["dialects"] = ["postgresql"]
+        out.append(("pg-%s" % ri, sp))
+    return out
 
 
 def spec_key(spec):
